@@ -125,6 +125,14 @@ func execWire(line string) (string, bool) {
 			}
 			first := "ok " + hexOr(fc.Pkt)
 			copy(fc.Data, mustHex(t[4]))
+			if len(t) > 5 {
+				// a tag set between the two steps: only the finished packet is compared
+				g.SetTag(fc, uint16(atou(t[5], 16)))
+				return guard(func() string {
+					g.SetRreadCount(fc, n)
+					return "ok " + hexOr(fc.Pkt)
+				})
+			}
 			second := guard(func() string {
 				g.SetRreadCount(fc, n)
 				return "ok " + hexOr(fc.Pkt)
@@ -411,6 +419,10 @@ func genC01(c *Ctx) {
 		}
 		c.count("rread")
 		c.run(fmt.Sprintf("rread %d %d %d %s", bl, cnt, n, hexOr(genBytes(r, cnt))))
+		if r.Intn(3) == 0 {
+			c.count("rread-tag-between")
+			c.run(fmt.Sprintf("rread %d %d %d %s %d", bl, cnt, n, hexOr(genBytes(r, cnt)), []int{0, 1, 0x102, 0xfffe, 0xffff, r.Intn(65536)}[r.Intn(6)]))
+		}
 	}
 }
 
